@@ -384,7 +384,7 @@ def c19(ctx):
 # =========================================================================================
 #  timelines as objects: C09 (purity) and C12 (merged), and C20 (no panic / debug = release)
 # =========================================================================================
-NKO = 12
+NKO = 13
 
 
 def objects_mc(ctx):
@@ -396,7 +396,7 @@ def objects_legA(ctx, release=False):
     reps = []
     plans = [({"KO": 0, "Depth": 6, "NRand": 2 if ctx.quick() else 12}, "-3,0")]
     for ko in range(1, NKO + 1):
-        plans.append(({"KO": ko, "Depth": 24, "NRand": 40 if ctx.quick() else 600}, "-3,0,5"))
+        plans.append(({"KO": ko, "Depth": 24, "NRand": 40 if ctx.quick() else 600}, "-27,-3,0,5"))     # -27: ticks of 7.5 ns
     for sub, scales in plans:
         run = run_tlc(ctx, "MC_Objects", "Gen_Objects.cfg", workers=4, subst=sub, capture="gen-obj.txt", timeout=3000)
         n = count_replay(run["out"])
@@ -427,7 +427,7 @@ RULE_OBJ = ("TLC generates operation histories (update at arbitrary, non-monoton
 def c09(ctx):
     objects_mc(ctx)
     rep = objects_legA(ctx)
-    judge_replay(ctx, rep, lambda m: m.get("class") in ("value", "idempotent", "prior-contents", "meta"), "results depend on something other than (timeline, start_with, time)")
+    judge_replay(ctx, rep, lambda m: m.get("class") in ("value", "idempotent", "prior-contents", "history-dependent", "meta"), "results depend on something other than (timeline, start_with, time)")
     return "model_checking", RULE_OBJ
 
 
